@@ -13,8 +13,9 @@ from ..monitors import codec as codec_mon  # noqa: E402
 from . import container as C  # noqa: E402
 
 
-def catalogue(rng, present_kinds, free):
-    """every fault op that applies in a state holding `present_kinds` (list of kind names)"""
+def catalogue(present_kinds):
+    """every fault recipe that applies in a state holding `present_kinds` (cheap descriptors;
+    materialised into an operation only when selected)"""
     out = []
     pres = set(present_kinds)
 
@@ -26,39 +27,35 @@ def catalogue(rng, present_kinds, free):
         for kind in C.FAULT_KINDS_LABEL:
             for how in hows(kind):
                 for pos in ("first", "middle", "last"):
-                    o = C.fault_op(rng, pres, gen.KINDS, what, how, kind)
-                    if not o.get("fault"):
-                        continue
-                    o["fault"]["pos"] = pos
-                    if kind == "optical":
-                        for fld in ("lens_name", "camera_type", "camera_name"):
-                            o2 = dict(o, fault=dict(o["fault"], field=fld))
-                            out.append(o2)
-                    else:
-                        out.append(o)
+                    for fld in (("lens_name", "camera_type", "camera_name") if kind == "optical" else (None,)):
+                        out.append({"what": what, "kind": kind, "how": how, "pos": pos, "field": fld})
     for kind in C.FAULT_KINDS_FORMAT:
         for how in hows(kind):
             fmts = {"data3D": ["byFrame", "byFrameWithoutLinks", "unknownFormat"],
                     "force3D": ["byFrame", "byTrackWithSpeed", "byFrameWithSpeed", "unknownFormat"],
                     "data2D": ["RTSFormat", "SYNCFormat"]}.get(kind, [None])
             for fm in fmts:
-                o = C.fault_op(rng, pres, gen.KINDS, "unsupported-format", how, kind)
-                if fm:
-                    o["fault"]["fmt"] = fm
-                out.append(o)
+                out.append({"what": "unsupported-format", "kind": kind, "how": how, "fmt": fm})
     for obj in ("none", "str", "track", "fake"):
         for how in ("add", "replace", "set"):
-            o = C.fault_op(rng, pres, gen.KINDS, "wrong-object", how, "events")
-            o["fault"]["obj"] = obj
-            out.append(o)
+            out.append({"what": "wrong-object", "kind": "events", "how": how, "obj": obj})
     for what in ("comment-too-long", "comment-non-cp1252"):
         for kind in ("events", "data3D", "platCal"):
             how = "replace" if kind in pres else "add"
             for ln in ((256, 257, 300) if what == "comment-too-long" else (0,)):
-                o = C.fault_op(rng, pres, gen.KINDS, what, how, kind)
-                o["comment_len"] = ln
-                out.append(o)
+                out.append({"what": what, "kind": kind, "how": how, "comment_len": ln})
     return out
+
+
+def materialise(rng, r, pres):
+    o = C.fault_op(rng, set(pres), gen.KINDS, r["what"], r["how"], r["kind"])
+    if o.get("fault"):
+        for k in ("pos", "field", "fmt", "obj"):
+            if r.get(k) is not None:
+                o["fault"][k] = r[k]
+    if "comment_len" in r:
+        o["comment_len"] = r["comment_len"]
+    return o
 
 
 def continuation(rng, present_kinds, free):
@@ -123,14 +120,20 @@ def shard_fault_matrix(desc, rec):
             pre_ops = [dict(alpha[j], full=False) for j in pre]
             pres, free = shadow(n, [], pre_ops)
             crng = random.Random(hash((desc["seed"], n, pre)) & 0xFFFFFFFF)
-            cat = catalogue(crng, pres, free)
-            for fo in cat:
+            cat = catalogue(pres)
+            for recipe in cat:
                 idx += 1
                 if idx % desc["parts"] != desc["part"]:
                     continue
                 if (idx // desc["parts"]) % desc["stride"] != 0:
                     continue
+                fo = materialise(crng, recipe, pres)
+                if recipe["what"].startswith("label") and not fo.get("fault"):
+                    continue
                 cont = continuation(crng, pres, free)
+                for co in cont[:-1]:
+                    co["full"] = False
+                fo["full"] = False
                 ops = pre_ops + [fo] + cont
                 init = {"how": "foreign", "n": n, "nlive": 0, "seed": desc["seed"], "opaque_p": 0.0,
                         "scramble": False}
@@ -146,32 +149,40 @@ def shard_fault_matrix(desc, rec):
 
 
 def shard_holes(desc, rec):
-    """well-formed files with an unused slot between live blocks"""
+    """well-formed files with one or more unused slots between live blocks: a rejected add / replace must
+    leave file and open object alone, and a following valid removal must behave as if it had never been made"""
     codec_mon.install(rec)
     rng = random.Random(desc["seed"] * 5 + 2)
     orc = desc["oracles"]
     for i in range(desc["n"]):
-        n = rng.choice([3, 4, 6, 14])
-        nlive = rng.randint(3, min(n, 6)) if n > 3 else 3
+        n = rng.choice([4, 6, 14])
+        nlive = rng.randint(3, min(n, 6))
+        hole_n = rng.choice([1, 1, 2, 3])
+        hole_n = min(hole_n, nlive - 2) or 1
         init = {"how": "foreign", "n": n, "nlive": nlive, "seed": rng.getrandbits(32), "opaque_p": 0.0,
-                "scramble": rng.random() < 0.5, "hole_at": rng.randint(0, nlive - 2)}
+                "scramble": rng.random() < 0.5, "hole_at": rng.randint(0, nlive - 1 - hole_n), "hole_n": hole_n}
         _, m = C.make_initial(random.Random(init["seed"]), n, nlive, 0.0, init["scramble"])
         types = [rc.CODE_TYPES[t] for t in m.types()]
-        at = min(init["hole_at"], len(types) - 2)
-        removed = types[at]
+        at = max(0, min(init["hole_at"], len(types) - 1 - hole_n))
+        removed = types[at:at + hole_n]
         before_hole = types[:at]
-        absent = [k for k in gen.KINDS if k not in types or k == removed]
-        choice = rng.random()
-        if choice < 0.5 or not before_hole:
+        after_hole = types[at + hole_n:]
+        absent = [k for k in gen.KINDS if k not in types or k in removed]
+        if rng.random() < 0.5 or not before_hole:
             k = rng.choice(absent)
             how = "set" if (k in C.SETTER and rng.random() < 0.4) else "add"
         else:
             k = rng.choice(before_hole)
             how = "set" if (k in C.SETTER and rng.random() < 0.4) else "replace"
         ops = [C.op_add(rng, k, rng.choice([0, 1]), how=how)]
+        # continuation in the same session: remove a block (valid on such files); its effect must be exactly
+        # that of the removal alone
+        if rng.random() < 0.7:
+            victim = rng.choice(before_hole + after_hole)
+            ops.append({"op": "remove", "kind": victim, "code": rc.TYPE_CODES[victim], "hole_ok": True})
         h = C.History(rec, orc, init, ops, "holes")
         rec.case({"init": init, "op": C._op_brief(ops[0])}, True,
-                 sample={"init": init, "op": C._op_brief(ops[0])} if i % 40 == 0 else None)
+                 sample={"init": init, "ops": [C._op_brief(o) for o in ops]} if i % 40 == 0 else None)
         h.run()
         C._finish(rec, h)
 
